@@ -310,6 +310,9 @@ def _import_rule(rep, fn, args, src, dst, keep, why):
 
 
 def run(tree, rep, tier):
+    from .. import round9 as _r9b
+    _r9b.no_yield_between(tree, rep, "C13.R10", "src/wormhole/_dilation/subchannel.py", "SubchannelConnectorEndpoint", "connect", "subchannel_local_open",
+                          ("_set_protocol", "makeConnection"), "the subchannel is already registered with Inbound but has no protocol: DATA / CLOSE that arrive in that turn are parked in _pending_remote_data, which only the listener path drains - they are acknowledged and never delivered (connectionLost never fires on the connecting side)")
     # "a subchannel opened by one side appears exactly once on the other side" needs every OPEN that reaches Manager.got_record to be
     # dispatched (and acknowledged) whatever the Manager's connection bookkeeping says at that moment: records parked during `selecting`
     # are replayed by select() BEFORE connector_connection_made - the rule instances are those of C10.R4
@@ -370,3 +373,5 @@ MUTANTS.append(Mutant("halfclose-signal-before-close", SUB, "    read_closed.upo
 MUTANTS.append(Mutant("halfclose-first-signal-before-close", SUB, "    open_half.upon(local_close, enter=write_closed, outputs=[send_close,\n                                                             signal_writeConnectionLost])",
                       "    open_half.upon(local_close, enter=write_closed, outputs=[signal_writeConnectionLost,\n                                                             send_close])", "C13.R7", "finding F16 put back"))
 MUTANTS.append(Mutant("remote-close-drops-held-data", SUB, "    def queue_remote_close(self):\n", "    def queue_remote_close(self):\n        self._pending_remote_data = []\n", "C13.R9", "seed C13-17"))
+
+MUTANTS.append(Mutant("yield-before-protocol-attached", "src/wormhole/_dilation/subchannel.py", "        p = protocolFactory.buildProtocol(peer_addr)\n        sc._set_protocol(p)\n", "        p = protocolFactory.buildProtocol(peer_addr)\n        yield self._eventual_queue.fire_eventually()\n        sc._set_protocol(p)\n", "C13.R10", "seeds C10-20 / C13-20"))
